@@ -359,7 +359,7 @@ def check_C11(tier):
     cfx = F.build_many([(c, "rel") for c in ccl])
     stage = ("minimal_lexical::lemire::", "minimal_lexical::bellerophon::", "minimal_lexical::extended_float::")
     _e4_report(rep, "C11", results, lambda j: "%s stage" % j["config"], {"%s stage" % c: cfx[(c, "rel")] for c in ccl},
-               fn_filter=lambda o: o["kind"].startswith(("post:", "carry-test", "scale-consumed")) and (o["kind"].startswith("post:") or o["fn"].startswith(stage)),
+               fn_filter=lambda o: o["kind"].startswith(("post:", "carry-test", "scale-consumed", "wrap-free")) and (o["kind"].startswith("post:") or o["fn"].startswith(stage)),
                floor_per_group=3)
     n_carry = sum(1 for r in results for res in r.get("results", []) for o in res["obs"] if o["kind"].startswith("carry-test"))
     rep.floor("carry tests on wrapping sums in the Eisel-Lemire product", n_carry, 1)
